@@ -20,6 +20,38 @@ class OwnBase(BaseException):
     pass
 
 
+class QuotaError(Exception):
+    """rebuilding it from its args (the formatted message) raises KeyError in the parent"""
+    TABLE = {'cpu': 4}
+
+    def __init__(self, resource):
+        super().__init__('quota exceeded for %s' % resource)
+        self.limit = self.TABLE[resource]
+
+
+class BadState:
+    """a value whose __setstate__ refuses to be restored in another process"""
+    def __init__(self):
+        self.pid = os.getpid()
+
+    def __setstate__(self, st):
+        if st['pid'] != os.getpid():
+            raise ValueError('state of a foreign process')
+        self.__dict__.update(st)
+
+
+def _slow_rebuild(pid):
+    import time
+    if os.getpid() != pid:
+        time.sleep(1.5)          # unpickling in the parent takes a while: the result is "in flight"
+    return ('own', 7)
+
+
+class Slow:
+    def __reduce__(self):
+        return (_slow_rebuild, (os.getpid(),))
+
+
 def mark(path, what):
     if path:
         fd = os.open(path, os.O_WRONLY | os.O_APPEND | os.O_CREAT, 0o600)
@@ -55,6 +87,22 @@ def t_exc(mpath, n=2):
     raise ValueError('own', x)
 
 
+def t_slowfin(mpath, n=2):
+    """the finally block needs 1.5 s: a graceful terminate must give it the time it was promised"""
+    import time
+    x = 0
+    mark(mpath, 'start')
+    try:
+        for i in range(n):
+            x += i + 1
+    finally:
+        mark(mpath, 'fin_enter')
+        time.sleep(1.5)
+        mark(mpath, 'fin_done')
+    mark(mpath, 'ret')
+    return ('own', x)
+
+
 def t_bexc(mpath, n=1):
     mark(mpath, 'start')
     mark(mpath, 'raise')
@@ -73,23 +121,45 @@ def t_big(mpath, n=1):
     return b'x' * (3 * 1024 * 1024)
 
 
-TARGETS = {'ret': t_ret, 'exc': t_exc, 'bexc': t_bexc, 'unreb': t_unreb, 'big': t_big}
+def t_unreb2(mpath, n=1):
+    mark(mpath, 'start')
+    mark(mpath, 'raise')
+    raise QuotaError('cpu')
 
 
-def p_item(mpath, k):
-    """persistent target: result for item k is ('own', k)"""
+def t_badret(mpath, n=1):
+    mark(mpath, 'start')
+    mark(mpath, 'ret')
+    return BadState()
+
+
+def t_slow(mpath, n=1):
+    mark(mpath, 'start')
+    mark(mpath, 'ret')
+    return Slow()
+
+
+TARGETS = {'slowfin': t_slowfin, 'unreb2': t_unreb2, 'badret': t_badret, 'slow': t_slow, 'ret': t_ret, 'exc': t_exc, 'bexc': t_bexc, 'unreb': t_unreb, 'big': t_big}
+
+
+def p_item(mpath, k, bump=0):
+    """persistent target: result for item k is ('own', k + bump); only item 1 is enqueued with a bump"""
     mark(mpath, 'item %d start' % k)
-    y = k * 1
+    y = k + bump
     mark(mpath, 'item %d ret' % k)
     return ('own', y)
 
 
-def p_item_raise3(mpath, k):
+def p_item_raise3(mpath, k, bump=0):
     mark(mpath, 'item %d start' % k)
     if k == 3:
         raise ValueError('own', k)
     mark(mpath, 'item %d ret' % k)
-    return ('own', k)
+    return ('own', k + bump)
+
+
+def expected_value(k):
+    return k + (1000 if k == 1 else 0)
 
 
 class _Stateful:
@@ -101,6 +171,11 @@ class _Stateful:
         self.user_state = base + 1
         mark(mpath, 'us_post %d' % (base + 1))
         r = super().run(*args, **kwargs)
+        if kwargs.get('n') == 99 or (len(args) > 1 and args[1] == 99):
+            mark(mpath, 'us_pre none')           # the last value assigned in the child is None
+            self.user_state = None
+            mark(mpath, 'us_post none')
+            return r
         mark(mpath, 'us_pre %d' % (base + 2))
         self.user_state = base + 2
         mark(mpath, 'us_post %d' % (base + 2))
